@@ -2,7 +2,7 @@
    invariant; nothing at or below the restart head is lost; witnesses (legacy reorg
    window refuted, repaired window fine, non-vacuity) by vm_compute. *)
 From Coq Require Import List NArith Bool Lia.
-From GV Require Import Lib.Tactics Chain.Tree Chain.Canonical Chain.CanonicalProofs Chain.CanonicalInv Chain.CanonicalTop Chain.CanonicalWitness Chain.Restart Chain.RestartProofs.
+From GV Require Import Lib.Tactics Chain.Tree Chain.Canonical Chain.CanonicalProofs Chain.CanonicalInv Chain.CanonicalTop Chain.Restart Chain.RestartProofs.
 Import ListNotations.
 Local Open Scope N_scope.
 
@@ -18,7 +18,7 @@ Notation Inv := (Inv T).
    of the invariant; the state before the head-marker batch is [before_head_write] of one *)
 Lemma import_cut_pre : forall legacy fuel st l x at_head st',
   import_cut T legacy fuel st l x at_head = Some st' -> Strict2 st ->
-  exists st2 b, T x = Some b /\ Strict2 st2 /\
+  exists st2 b, T x = Some b /\ Strict2 st2 /\ is_known st2 x = true /\
     (at_head = false -> st' = st2) /\
     (at_head = true -> before_head_write T legacy fuel st2 (x, b) = Some st').
 Proof.
@@ -38,6 +38,7 @@ Proof.
   destruct (classify st1 (match pre with [] => true | _ => false end) (x, b)); try discriminate.
   destruct (write_block_with_state st1 (x, b)) as [st2|] eqn:EW; [|discriminate].
   exists st2, b. split; [reflexivity|]. split; [eapply (Strict2_wbws T); eauto|].
+  split; [exact (proj2 (wbws_known st1 (x, b) st2 x EW))|].
   split; [intros ->; now inversion H | intros ->; exact H].
 Qed.
 
@@ -69,7 +70,7 @@ Proof.
   - (* CutBlock inside an import *)
     destruct (import_cut T (c_legacy_reorg cf) fuel (kv p1) l x false) as [st|] eqn:EI.
     + inversion EC; subst. cbn [kv].
-      destruct (import_cut_pre _ _ _ _ _ _ _ EI HS1) as (st2 & b & _ & HS2 & E & _). now rewrite (E eq_refl).
+      destruct (import_cut_pre _ _ _ _ _ _ _ EI HS1) as (st2 & b & _ & HS2 & _ & E & _). now rewrite (E eq_refl).
     + destruct (sstep T (c_path cf) fuel p1 (SImport l)) as [r e0] eqn:ES. inversion EC; subst. eapply Hwhole; eauto.
 Qed.
 
@@ -81,7 +82,7 @@ Lemma crash_state_head_cut_noreorg : forall legacy fuel st l x st',
   Strict2 st'.
 Proof.
   intros legacy fuel st l x st' H HS Hno.
-  destruct (import_cut_pre _ _ _ _ _ _ _ H HS) as (st2 & b & ET & HS2 & _ & E).
+  destruct (import_cut_pre _ _ _ _ _ _ _ H HS) as (st2 & b & ET & HS2 & _ & _ & E).
   specialize (E eq_refl). rewrite (bhw_noreorg _ _ _ _ _ E (Hno _ _ ET HS2 E)). exact HS2.
 Qed.
 
@@ -179,6 +180,40 @@ End C.
 
 (* ------------------------------------------------------------ witnesses *)
 
+(* decidable well-formedness of list-given trees (as in C38's CanonicalWitness.v; repeated
+   here so that C39 does not depend on that file) *)
+Definition wf_list (l : list (N * block)) : bool :=
+  (match tree_of_list l 0 with Some g => b_number g =? 0 | None => false end) &&
+  forallb (fun hb : N * block =>
+             let (h, b) := hb in
+             if b_number b =? 0 then h =? 0
+             else match tree_of_list l (b_parent b) with
+                  | Some p => b_number p + 1 =? b_number b
+                  | None => false
+                  end) l.
+
+Lemma wf_list_sound : forall l, wf_list l = true -> wf_tree (tree_of_list l).
+Proof.
+  intros l H. apply andb_prop in H as [Hg Hall]. split.
+  - destruct (tree_of_list l 0) as [g|]; [|discriminate]. exists g. split; auto. now apply N.eqb_eq.
+  - intros h b Hb. unfold tree_of_list in Hb.
+    destruct (find (fun p => fst p =? h) l) as [[h' b']|] eqn:EF; [|discriminate].
+    inversion Hb; subst b'. apply find_some in EF as [Hin Hk]. cbn in Hk. apply N.eqb_eq in Hk. subst h'.
+    rewrite forallb_forall in Hall. specialize (Hall _ Hin). cbn in Hall.
+    destruct (N.eqb_spec (b_number b) 0) as [E|E].
+    + left. split; auto. now apply N.eqb_eq.
+    + right. split; [lia|]. destruct (tree_of_list l (b_parent b)) as [p|]; [|discriminate].
+      exists p. split; auto. now apply N.eqb_eq.
+Qed.
+
+(* chain 1-2-3-4 on the genesis, competitor 5 at height 1 *)
+Definition W1 : list (N * block) :=
+  [ (0, mkblock 4294967295 0 [] []); (1, mkblock 0 1 [] []); (2, mkblock 1 2 [] []);
+    (3, mkblock 2 3 [] []); (4, mkblock 3 4 [] []); (5, mkblock 0 1 [] []) ].
+Definition WT : tree := tree_of_list W1.
+Lemma WT_wf : wf_tree WT.
+Proof. apply wf_list_sound. vm_compute. reflexivity. Qed.
+
 (* chain 1-2-3 on the genesis, competitor 6 on block 1 *)
 Definition W2 : list (N * block) :=
   [ (0, mkblock 4294967295 0 [] []); (1, mkblock 0 1 [] []); (2, mkblock 1 2 [] []);
@@ -209,7 +244,7 @@ Lemma legacy_hole : legacy_hole_check = true.
 Proof. vm_compute. reflexivity. Qed.
 
 (* (b): the same window when the common ancestor is the genesis block (competitor 5 of
-   CanonicalWitness.W at height 1): rawdb.Open refuses the database *)
+   W1 at height 1): rawdb.Open refuses the database *)
 Definition legacy_open_check : bool :=
   match crash_restart WT cfg_legacy [SImport [1;2;3]; SImport [5]] (CutHead 5) [0] with
   | RErr ROpenGap => true
